@@ -328,9 +328,28 @@ class EngineWorld(object):
         return self._call('op:' + name, getattr(self.engine, name), *args, **kw)
 
     # ------------------------------------------------------------------ deliveries
+    def broken_jobs(self):
+        """keys of in-memory jobs whose ORM object the engine expired + detached (any attribute
+        access raises): Workflow.lock() -> session.expire_all() during a nested rerun (C12 finding)"""
+        bad = []
+        for k, j in list(self.scheduler.in_memory_jobs.items()):
+            try:
+                j.id, j.key, j.execute_at, j.func_name
+            except Exception:
+                bad.append(k)
+        return bad
+
+    def forget_broken(self):
+        """what the real dispatcher usually does: it popped the delay-0 job before the commit, could not
+        capture it and forgot it"""
+        for k in self.broken_jobs():
+            self.scheduler.in_memory_jobs.pop(k, None)
+
     def jobs(self):
         """in-memory scheduler jobs (what the dispatcher thread would see)."""
-        return sorted(self.scheduler.in_memory_jobs.values(), key=lambda j: self.id_ord.get(j.id, 0))
+        bad = set(self.broken_jobs())
+        good = [j for k, j in list(self.scheduler.in_memory_jobs.items()) if k not in bad]
+        return sorted(good, key=lambda j: self.id_ord.get(j.id, 0))
 
     def enabled(self):
         """Deliverable things now: [('p', Pending) | ('job', job)]; un-due jobs are excluded."""
